@@ -75,7 +75,8 @@ def gen_app(rng, ids, depth=0, max_routes=6, fangs=True, local=True, mounts=True
             mount_pre.append(mp)
             app['items'].append({'mount': m, 'app': gen_app(rng, ids, depth + 1, max_routes=4, fangs=fangs, local=local, mounts=mounts, nparams_left=nparams_left - np_, free=free)})
     seen = set()
-    for _ in range(rng.choice([1, 2, 3, max_routes])):
+    # a mounted application may have fangs and no route of its own (a guard for a whole prefix)
+    for _ in range(0 if (depth > 0 and app['fangs'] and rng.random() < 0.2) else rng.choice([1, 2, 3, max_routes])):
         r = lit(rng, depth_max=3, param_rate=0.3 if nparams_left > 0 else 0)
         rp = pat(r)
         if sum(1 for s in rp if s is None) > nparams_left: continue
@@ -154,10 +155,12 @@ def scope_chain(app, segs):
 def request_paths(rng, app, n):
     """paths: each route instantiated, plus mutations (extra/empty segments, trailing slashes, shared prefixes, percent-escapes)"""
     fr = flat_routes(app)
+    mp = mount_prefixes(app)
     out = []
     def inst(p): return b'/' + b'/'.join((rng.choice([b'7', b'ab', b'users', b'x%2Fy', b'%41', b'a b'.replace(b' ', b'+')]) if s is None else s) for s in p) if p else b'/'
     for _ in range(n):
         base = inst(rng.choice(fr)[0]) if fr and rng.random() < 0.8 else (b'/' + b'/'.join(rng.choice(VOCAB).encode() for _ in range(rng.choice([0, 1, 2, 3]))))
+        if mp and rng.random() < 0.15: base = inst(rng.choice(mp))          # a mount point itself (the mounted application may have no route there, or none at all)
         r = rng.random()
         if r < 0.35: p = base
         elif r < 0.45: p = base + b'/'
